@@ -37,6 +37,10 @@ class ScriptMismatch(HarnessError):
     pass
 
 
+class _Runaway(BaseException):
+    """more forks / clock requests on one path than the caller says any terminating run can need"""
+
+
 class _Core(object):
     __slots__ = ('lo', 'hi')
 
@@ -144,7 +148,7 @@ def _desc_item(x):
 class ForkRNG(object):
     """Stands in for the `random` module."""
 
-    def __init__(self, script=(), max_clocks=10 ** 9, delays=DELAYS, detect_restart=True):
+    def __init__(self, script=(), max_clocks=10 ** 9, delays=DELAYS, detect_restart=True, max_forks=None):
         self.script = list(script)
         self.trace = []       # dicts: kind, desc, probs, chosen, nclock
         self.clocks = []      # dicts: rate, pos (number of forks before it), delay
@@ -152,10 +156,13 @@ class ForkRNG(object):
         self.delays = delays
         self.detect_restart = detect_restart
         self.pruned = 0.0
+        self.max_forks = max_forks
 
     # -- core ------------------------------------------------------------
     def _fork(self, desc, probs):
         i = len(self.trace)
+        if self.max_forks is not None and i >= self.max_forks:
+            raise _Runaway()
         if i > 20000:
             raise HarnessError('more than 20000 forks on one path (unbounded random loop?)')
         if self.detect_restart and desc[0] == 'choice' and i >= 2:
@@ -242,6 +249,8 @@ class ForkRNG(object):
         if rate == 0:
             raise ZeroDivisionError('float division by zero')
         idx = len(self.clocks)
+        if self.max_forks is not None and idx > self.max_forks + self.max_clocks:
+            raise _Runaway()
         if abs(rate) < TINY_RATE:
             d = 1.0 / rate            # what a real draw would be, to within a factor O(1): beyond any finite horizon
         elif idx >= self.max_clocks:
@@ -350,7 +359,7 @@ class Leaf(object):
         return p
 
 
-def enumerate_paths(run, prefix=(), max_clocks=10 ** 9, max_leaves=200000, delays=DELAYS):
+def enumerate_paths(run, prefix=(), max_clocks=10 ** 9, max_leaves=200000, delays=DELAYS, max_forks=None):
     """All completions of `prefix`.  run(rng) -> output (the forking source is installed by this driver).
 
     Leaves: kind 'done' (out = run's return value), 'error' (out = exception raised by the code under
@@ -360,13 +369,15 @@ def enumerate_paths(run, prefix=(), max_clocks=10 ** 9, max_leaves=200000, delay
     leaves = []
     pruned = 0.0
     while True:
-        rng = ForkRNG(script, max_clocks=max_clocks, delays=delays)
+        rng = ForkRNG(script, max_clocks=max_clocks, delays=delays, max_forks=max_forks)
         try:
             with installed(rng):
                 out = run(rng)
             kind = 'done'
         except _Restart as r:
             kind, out = 'restart', r.depth
+        except _Runaway:
+            kind, out = 'runaway', None
         except HarnessError:
             raise
         except Exception as e:
@@ -403,6 +414,8 @@ def law(leaves, key, start=0):
             lf = group[0]
             if lf.kind == 'restart':
                 return {}, {lf.out: 1.0}
+            if lf.kind == 'runaway':
+                return {('runaway',): 1.0}, {}
             return {key(lf): 1.0}, {}
         by = {}
         for lf in group:
